@@ -7,6 +7,7 @@ The symmetric square `A ↦ P (A ⊗ A) I` (`symmetric_projection`, `symmetric_i
 import Mathlib.Algebra.BigOperators.Fin
 import Mathlib.LinearAlgebra.Matrix.Kronecker
 import Mathlib.Tactic.Ring
+import Mathlib.Tactic.LinearCombination
 import GT.Lemmas.RepDerived
 
 namespace GT
@@ -109,7 +110,7 @@ theorem symIndex_surj {n s : ℕ} (h : s < symDim n) :
 
 /-! ### the matrices on `Fin n × Fin n` -/
 
-variable {n : ℕ} {R : Type} [Inhabited R] [CommRing R]
+variable {n : ℕ} {R : Type} [CommRing R]
 
 /-- `symmetric_projection` with columns indexed by pairs -/
 def symP (R : Type) [CommRing R] (n : ℕ) : Matrix (Fin (symDim n)) (Fin n × Fin n) R :=
@@ -124,23 +125,23 @@ def symI (half : R) (n : ℕ) : Matrix (Fin n × Fin n) (Fin (symDim n)) R :=
 def swapM (R : Type) [CommRing R] (n : ℕ) : Matrix (Fin n × Fin n) (Fin n × Fin n) R :=
   Matrix.of fun a b => if a.swap = b then 1 else 0
 
-theorem symProjection_toMatrix (n : ℕ) :
+theorem symProjection_toMatrix [Inhabited R] (n : ℕ) :
     (symProjection n : DMat _ _ R).toMatrix = (symP R n).submatrix id finProdFinEquiv.symm := by
   unfold symProjection
   refine (DMat.toMatrix_ofMatrix _).trans ?_
   rfl
 
-theorem symInclusion_toMatrix (half : R) (n : ℕ) :
+theorem symInclusion_toMatrix [Inhabited R] (half : R) (n : ℕ) :
     (symInclusion half n).toMatrix = (symI half n).submatrix finProdFinEquiv.symm id := by
   unfold symInclusion
   refine (DMat.toMatrix_ofMatrix _).trans ?_
   rfl
 
 /-- `A ↦ P (A ⊗ A) I` -/
-def symH (half : R) (X : Matrix (Fin n) (Fin n) R) : Matrix (Fin (symDim n)) (Fin (symDim n)) R :=
+def symH [Inhabited R] (half : R) (X : Matrix (Fin n) (Fin n) R) : Matrix (Fin (symDim n)) (Fin (symDim n)) R :=
   (symProjection n : DMat _ _ R).toMatrix * kron X X * (symInclusion half n).toMatrix
 
-theorem symH_eq (half : R) (X : Matrix (Fin n) (Fin n) R) :
+theorem symH_eq [Inhabited R] (half : R) (X : Matrix (Fin n) (Fin n) R) :
     symH half X = symP R n * Matrix.kroneckerMap (· * ·) X X * symI half n := by
   unfold symH kron
   rw [symProjection_toMatrix, symInclusion_toMatrix, Matrix.reindex_apply,
@@ -170,17 +171,16 @@ theorem symI_mul_symP_apply (half : R) (a b : Fin n × Fin n) :
       then half + (if a.1.1 = a.2.1 then 1 else 0) * half else 0 := by
   rw [Matrix.mul_apply, Finset.sum_eq_single ⟨symIndex a.1.1 a.2.1 n, symIndex_lt a.1.2 a.2.2⟩]
   · simp only [symI, symP, Matrix.of_apply, if_true]
-    split_ifs with h1 h2 h2
-    · rw [mul_one]
-    · exact absurd h1.symm h2
-    · exact absurd h2.symm h1
-    · rw [mul_zero]
+    by_cases h : symIndex a.1.1 a.2.1 n = symIndex b.1.1 b.2.1 n
+    · rw [if_pos h, if_pos h.symm, mul_one]
+    · have h' : ¬ symIndex b.1.1 b.2.1 n = symIndex a.1.1 a.2.1 n := fun e => h e.symm
+      rw [if_neg h, if_neg h', mul_zero]
   · intro c _ hc
     have : symIndex a.1.1 a.2.1 n ≠ c.1 := fun h => hc (Fin.ext h.symm)
     simp [symI, this]
   · simp
 
-theorem symI_mul_symP {half : R} (hh : 2 * half = 1) :
+theorem symI_mul_symP (half : R) :
     symI half n * symP R n = half • (1 + swapM R n) := by
   ext a b
   rw [symI_mul_symP_apply]
@@ -201,14 +201,13 @@ theorem symI_mul_symP {half : R} (hh : 2 * half = 1) :
   · have hd' : ¬ a.1.1 = a.2.1 := fun h => hd (Fin.ext h)
     rw [if_neg hd']
     by_cases hab : a = b
-    · have hsw : ¬ a.swap = b := by
-        rw [← hab]
+    · subst hab
+      have hsw : ¬ a.swap = a := by
         intro h
         apply hd
         have := congrArg Prod.fst h
         simpa using this.symm
-      simp only [hab, hsw, true_or, if_true, if_false]
-      rw [← hab]
+      simp only [hsw, true_or, if_true, if_false]
       ring
     · by_cases hsw : a.swap = b
       · simp only [hab, hsw, or_true, if_true, if_false]
@@ -234,23 +233,21 @@ theorem symP_mul_symI {half : R} (hh : 2 * half = 1) : symP R n * symI half n = 
     have hterm : ∀ a : Fin n × Fin n, symP R n c a * symI half n a c
         = (half • (1 + swapM R n)) a (⟨i, by omega⟩, ⟨j, hj⟩) := by
       intro a
-      rw [← symI_mul_symP hh, symI_mul_symP_apply]
+      rw [← symI_mul_symP half, symI_mul_symP_apply]
       simp only [symP, symI, Matrix.of_apply, hs]
       split_ifs <;> simp
     rw [Finset.sum_congr rfl fun a _ => hterm a]
     simp only [Matrix.smul_apply, Matrix.add_apply, smul_eq_mul, ← Finset.mul_sum,
       Finset.sum_add_distrib, sum_swapM_col, Matrix.one_apply, Finset.sum_ite_eq',
       Finset.mem_univ, if_true]
-    rw [← hh]
-    ring
+    linear_combination hh
   · rw [if_neg h]
     refine Finset.sum_eq_zero fun a _ => ?_
     simp only [symP, symI, Matrix.of_apply]
-    split_ifs with h1 h2
-    · exact absurd (Fin.ext (h1.symm.trans h2)) h
-    · rw [mul_zero]
-    · rw [zero_mul]
-    · rw [zero_mul]
+    by_cases h1 : symIndex a.1.1 a.2.1 n = c.1
+    · have h2 : ¬ symIndex a.1.1 a.2.1 n = c'.1 := fun h2 => h (Fin.ext (h1.symm.trans h2))
+      rw [if_neg h2, mul_zero]
+    · rw [if_neg h1, zero_mul]
 
 /-! ### `swap` commutes with `A ⊗ A` -/
 
@@ -270,14 +267,14 @@ theorem swapM_mul_kron (X : Matrix (Fin n) (Fin n) R) :
 
 /-! ### the symmetric square is multiplicative -/
 
-theorem symH_one {half : R} (hh : 2 * half = 1) :
+theorem symH_one [Inhabited R] {half : R} (hh : 2 * half = 1) :
     symH half (1 : Matrix (Fin n) (Fin n) R) = 1 := by
   rw [symH_eq]
   have : Matrix.kroneckerMap (· * ·) (1 : Matrix (Fin n) (Fin n) R) (1 : Matrix (Fin n) (Fin n) R)
       = 1 := Matrix.one_kronecker_one
   rw [this, Matrix.mul_one, symP_mul_symI hh]
 
-theorem symH_mul {half : R} (hh : 2 * half = 1) (X Y : Matrix (Fin n) (Fin n) R) :
+theorem symH_mul [Inhabited R] {half : R} (hh : 2 * half = 1) (X Y : Matrix (Fin n) (Fin n) R) :
     symH half (X * Y) = symH half X * symH half Y := by
   rw [symH_eq, symH_eq, symH_eq]
   have hK : Matrix.kroneckerMap (· * ·) (X * Y) (X * Y)
@@ -287,7 +284,7 @@ theorem symH_mul {half : R} (hh : 2 * half = 1) (X Y : Matrix (Fin n) (Fin n) R)
   generalize Matrix.kroneckerMap (· * ·) X X = KX
   have hS : symI half n * symP R n * Matrix.kroneckerMap (· * ·) Y Y
       = Matrix.kroneckerMap (· * ·) Y Y * (symI half n * symP R n) := by
-    rw [symI_mul_symP hh]
+    rw [symI_mul_symP half]
     simp only [Matrix.smul_mul, Matrix.mul_smul, Matrix.add_mul, Matrix.mul_add, Matrix.one_mul,
       Matrix.mul_one, swapM_mul_kron]
   generalize Matrix.kroneckerMap (· * ·) Y Y = KY at hS ⊢
